@@ -127,6 +127,7 @@ int x509_time_from_der(time_t *tv, const uint8_t **in, size_t *inlen)
 		}
 		break;
 	default:
+		*tv = -1;
 		return 0;
 	}
 	return 1;
